@@ -161,7 +161,7 @@ def t_seqfirst(size, i, k):
             ["macro", "m", "q", "n", ["sequential_block", ["gate", "g1", "q"], ["loop", "n", ["sequential_block", ["gate", "n0"]]]]],
             ["sequential_block", ["gate", "g1", AI("r", i)], ["gate", "n0"]],
             ["gate", "m", AI("r", i), k],
-            ["parallel_block", ["parallel_block", ["gate", "n0"]], ["gate", "m", AI("r", 0), 1]]]
+            ["parallel_block", ["sequential_block", ["gate", "n0"], ["gate", "n0"]], ["gate", "m", AI("r", 0), 1]]]
 
 
 @template(size=((1, 2), (1, 3)), c=((0, 2), (0, 4)), i=((0, 1), (-1, 3)))
